@@ -19,6 +19,7 @@ the FIRST; `C15_discipline_needed_*` exhibit both situations on the model, so th
 there is no `_partial` theorem in this file.
 -/
 import Restful.Lemmas.Response
+import Restful.Lemmas.StateShape
 namespace Restful
 namespace Props
 open Resp Spec
@@ -161,6 +162,12 @@ example :
     Spec.c15Holds ⟨false, [⟨[.header 200, .write 10 4 true], 200, 4, false⟩], none⟩ = false ∧
     Spec.c15Holds ⟨true, [⟨[.header 200, .write 10 10 false], 200, 10, false⟩], some (200, 9)⟩ = false := by
   decide
+
+/-! The frame condition (Lemmas/StateShape.lean): the code has exactly the state this property's model
+    accounts for — no further package-level variable, struct type or field; constants as modelled. -/
+-- also: Restful.StateShape.globals_shape
+-- also: Restful.StateShape.consts_shape
+-- also: Restful.StateShape.response_shape
 
 end Props
 end Restful
